@@ -43,4 +43,88 @@ GROUPS = {
             dict(name='merge_names_both', props=['C09'], complete=True, text='merge_names(AB): Err iff first names differ; else [a0,a1,b1], and projecting onto (s,a) / (s,b) gives back A\'s / B\'s row'),
             dict(name='canary_merge_must_fail', props=[], canary=True, text='must fail'),
         ]),
+    'desc': dict(
+        crate='duke', file='duke/src/tree/descriptor.rs', modpath='tree::descriptor::verif_kani_desc', harness_file='desc.rs',
+        functions=['duke/src/tree/descriptor.rs::read_field_type', 'duke/src/tree/descriptor.rs::write_field_type', 'FieldDescriptorSlice::parse',
+                   'ParsedFieldDescriptor::write', 'ReturnDescriptorSlice::parse', 'ParsedReturnDescriptor::write'],
+        trusted=['descriptor harnesses: strings over the 9-letter alphabet {I J L ; [ / a V (} only; oracle = independent recogniser of JVMS 4.3.2 in the harness'],
+        harnesses=[
+            dict(name=f'field_desc_len{n}', props=['C18', 'C16'], complete=False, bound=f'all {9**n} strings of length {n} over {{I,J,L,;,[,/,a,V,(}}', timeout=900,
+                 tier='quick' if n <= 3 else 'thorough',
+                 text='FieldDescriptorSlice::parse accepts exactly the JVMS field-descriptor grammar; write(parse(s)) == s and never panics')
+            for n in (1, 2, 3, 4)
+        ] + [
+            dict(name=f'return_desc_len{n}', props=['C18', 'C16'], complete=False, bound=f'all {9**n} strings of length {n} over {{I,J,L,;,[,/,a,V,(}}', timeout=900,
+                 tier='quick' if n <= 2 else 'thorough',
+                 text='ReturnDescriptorSlice::parse accepts exactly V | FieldType; write(parse(s)) == s and never panics')
+            for n in (1, 2, 3)
+        ] + [dict(name='canary_desc_must_fail', props=[], canary=True, text='must fail')]),
+}
+
+
+def _t(name, props, text, bound, **kw):
+    return dict(name=name, props=props, text=text, bound=bound, **kw)
+
+
+ENUM_GROUPS = {
+    'desc': dict(
+        crate='duke', file='duke/src/tree/descriptor.rs', harness_file='desc.rs',
+        functions=['duke/src/tree/descriptor.rs::read_field_type', 'duke/src/tree/descriptor.rs::write_field_type', 'FieldDescriptorSlice::parse',
+                   'ParsedFieldDescriptor::write', 'ReturnDescriptorSlice::parse', 'ParsedReturnDescriptor::write', 'MethodDescriptorSlice::parse',
+                   'ParsedMethodDescriptor::write', 'MethodDescriptorSlice::get_arguments_size'],
+        tests=[
+            _t('field_desc_grammar', ['C18', 'C16'], 'FieldDescriptorSlice::parse accepts exactly the JVMS 4.3.2 grammar, write(parse(s)) == s, no panic, terminates',
+               'all strings of length <= 5 over the 11 letters {I J L ; [ / a V . ( )} (177 156 strings)'),
+            _t('return_desc_grammar', ['C18', 'C16'], 'ReturnDescriptorSlice::parse accepts exactly V | FieldType, write(parse(s)) == s, no panic, terminates',
+               'all strings of length <= 5 over the same 11 letters'),
+            _t('method_desc_grammar', ['C18', 'C16'], 'MethodDescriptorSlice::parse accepts exactly "(" FieldType* ")" ReturnDescriptor, write(parse(s)) == s, no panic, terminates',
+               'all strings of length <= 6 over the 9 letters {( ) I J L ; [ a V} (597 871 strings)'),
+            _t('arguments_size', ['C16', 'C18'], 'MethodDescriptorSlice::get_arguments_size never panics or loops; on well-formed descriptors it is 1 + slots (2 for long/double)',
+               'all strings of length <= 6 over {( ) I J L ; [ a V}'),
+            _t('dimension_boundary', ['C18'], '`[`^n X parses iff n <= 255 (field, parameter and return position) and prints back',
+               'n in {0,1,2,127,128,253..257,300,511,512,600} x element type in {I, La;, J}'),
+            _t('print_then_parse', ['C18'], 'parse(write(t)) == t for field, return and method descriptors',
+               '8 primitives, 5 object names, arrays of dimension {1,2,3,254,255} over 9 element types'),
+            dict(name='canary_must_fail', props=[], canary=True, text='must fail', bound=''),
+        ]),
+    'names': dict(
+        crate='duke', file='duke/src/tree/mod.rs', harness_file='names.rs',
+        functions=['duke/src/tree/mod.rs::names::is_valid_class_name', 'names::is_valid_arr_class_name', 'names::is_valid_obj_class_name',
+                   'names::is_valid_unqualified_name', 'names::is_valid_method_name', 'duke/src/macros.rs make_string_str_like!::is_valid (5 instantiations)'],
+        tests=[
+            _t('name_predicates', ['C18'], 'the five validity predicates and the is_valid of FieldName/MethodName/ObjClassName/ArrClassName/ClassName accept exactly the documented strings',
+               'all strings of length <= 5 over {. ; [ / < > $ a} (37 449 strings) plus 10 special names around <init>/<clinit>'),
+            dict(name='canary_must_fail', props=[], canary=True, text='must fail', bound=''),
+        ]),
+    'inner': dict(
+        crate='duke', file='duke/src/tree/class.rs', harness_file='inner.rs',
+        functions=['ObjClassNameSlice::split_inner_class_parent_and_name', 'ObjClassNameSlice::get_inner_class_name', 'ObjClassNameSlice::get_inner_class_parent',
+                   'ObjClassName::from_inner_class'],
+        tests=[
+            _t('split_matches_spec_and_join_is_inverse', ['C11', 'C18'], 'split == last-$ split refusing empty sides and package crossings; join(split(s)) == s',
+               'all valid object class names of length <= 7 over {a b $ /}'),
+            _t('join_then_split', ['C11', 'C18'], 'from_inner_class yields a valid name and split(join(p, n)) == (p, n) for simple n',
+               'all pairs of valid object class names of length <= 3 over {a b $ /}'),
+            dict(name='canary_must_fail', props=[], canary=True, text='must fail', bound=''),
+        ]),
+    'mapdesc': dict(
+        crate='quill', file='quill/src/remapper.rs', harness_file='mapdesc.rs',
+        functions=['quill/src/remapper.rs::map_desc', 'ARemapper::map_class'],
+        tests=[
+            _t('map_desc_rewrites_exactly_the_class_names', ['C06', 'C16'], 'map_desc replaces exactly the names inside L...; (every other byte kept, shape preserved), Err exactly for an unterminated L or L;, no panic',
+               'all strings of length <= 6 over {L ; [ a b I (} (137 257 strings), two-entry remapper a->xy, b->a'),
+            _t('map_class_identity_fallback', ['C06'], 'ARemapper::map_class: mapped name for mapped classes, the unchanged name otherwise',
+               'all valid object class names of length <= 4 over {a b / $ x}'),
+            dict(name='canary_must_fail', props=[], canary=True, text='must fail', bound=''),
+        ]),
+    'mpo': dict(
+        crate='dukebox', file='dukebox/src/merge.rs', harness_file='mpo.rs',
+        functions=['dukebox/src/merge.rs::merge_preserve_order'],
+        tests=[
+            _t('union_exactly_once', ['C13'], 'merge_preserve_order yields every element of either list exactly once and nothing else, and keeps the client order',
+               'all pairs of duplicate-free lists of length <= 4 over 5 elements (206 x 206 pairs)'),
+            _t('both_orders_preserved_when_compatible', ['C13'], 'when no shared pair is ordered oppositely, the server order is kept too',
+               'all compatible pairs of duplicate-free lists of length <= 4 over 5 elements'),
+            dict(name='canary_must_fail', props=[], canary=True, text='must fail', bound=''),
+        ]),
 }
